@@ -602,3 +602,150 @@ Proof.
   - rewrite forallb_forall in G. apply Forall_forall. intros x Hx. specialize (G x Hx).
     unfold good in G. unfold no_lt. destruct nolf; repeat split; try lia; intros; try lia.
 Qed.
+
+(* ---------- identifiers ---------- *)
+Lemma irun_cons s c r :
+  irun s (c :: r) = match istep s c with
+                    | None => None
+                    | Some (emit, s') => option_map (app emit) (irun s' r)
+                    end.
+Proof. reflexivity. Qed.
+
+Lemma istep_IU0_hex d : 0 <= d < 16 -> istep IU0 (hexc d) = Some ([], IU4 3 d).
+Proof.
+  intros H. cbn [istep]. destruct (hexc_range d H); (destruct (hexc d =? 123) eqn:E; [lia|]);
+    rewrite hexc_hexval by exact H; reflexivity.
+Qed.
+Lemma istep_IU4_hex n v d : 0 <= d < 16 ->
+  istep (IU4 n v) (hexc d) = match n with
+                             | S (S k') => Some ([], IU4 (S k') (v * 16 + d))
+                             | _ => Some ([v * 16 + d], INormal)
+                             end.
+Proof. intros H. cbn [istep]. rewrite hexc_hexval by exact H. reflexivity. Qed.
+Lemma istep_IUB0_hex d : 0 <= d < 16 -> istep IUB0 (hexc d) = Some ([], IUB d).
+Proof. intros H. cbn [istep]. rewrite hexc_hexval by exact H. reflexivity. Qed.
+Lemma istep_IUB_hex v d : 0 <= d < 16 -> v * 16 + d <= 1114111 ->
+  istep (IUB v) (hexc d) = Some ([], IUB (v * 16 + d)).
+Proof.
+  intros H Hv. cbn [istep]. destruct (hexc_range d H); (destruct (hexc d =? 125) eqn:E; [lia|]);
+    rewrite hexc_hexval by exact H; (destruct (1114111 <? v * 16 + d) eqn:E2; [lia|reflexivity]).
+Qed.
+
+Lemma irun_esc_u4 c tail :
+  0 <= c <= 65535 -> irun INormal (esc_u4 c ++ tail) = option_map (cons c) (irun INormal tail).
+Proof.
+  intros Hc. unfold esc_u4. cbn [app].
+  rewrite irun_cons. change (istep INormal 92) with (Some (@nil Z, IEsc)). cbn beta iota. rewrite option_map_app_nil.
+  rewrite irun_cons. change (istep IEsc 117) with (Some (@nil Z, IU0)). cbn beta iota. rewrite option_map_app_nil.
+  rewrite irun_cons, istep_IU0_hex by lia. rewrite option_map_app_nil.
+  rewrite irun_cons, istep_IU4_hex by lia. rewrite option_map_app_nil.
+  rewrite irun_cons, istep_IU4_hex by lia. rewrite option_map_app_nil.
+  rewrite irun_cons, istep_IU4_hex by lia. rewrite option_map_app_one.
+  f_equal. f_equal. lia.
+Qed.
+
+Lemma irun_esc_ubrace r tail :
+  65536 <= r <= 1114111 -> irun INormal (esc_ubrace r ++ tail) = option_map (cons r) (irun INormal tail).
+Proof.
+  intros Hr. unfold esc_ubrace, hexX. cbn [app].
+  rewrite irun_cons. change (istep INormal 92) with (Some (@nil Z, IEsc)). cbn beta iota. rewrite option_map_app_nil.
+  rewrite irun_cons. change (istep IEsc 117) with (Some (@nil Z, IU0)). cbn beta iota. rewrite option_map_app_nil.
+  rewrite irun_cons. change (istep IU0 123) with (Some (@nil Z, IUB0)). cbn beta iota. rewrite option_map_app_nil.
+  destruct (r <? 1048576) eqn:E; cbn [app].
+  - rewrite irun_cons, istep_IUB0_hex by lia. rewrite option_map_app_nil.
+    do 4 (rewrite irun_cons, istep_IUB_hex by lia; rewrite option_map_app_nil).
+    rewrite irun_cons. cbn [istep]. replace (125 =? 125) with true by reflexivity.
+    rewrite option_map_app_one. f_equal. f_equal. lia.
+  - rewrite irun_cons, istep_IUB0_hex by lia. rewrite option_map_app_nil.
+    do 5 (rewrite irun_cons, istep_IUB_hex by lia; rewrite option_map_app_nil).
+    rewrite irun_cons. cbn [istep]. replace (125 =? 125) with true by reflexivity.
+    rewrite option_map_app_one. f_equal. f_equal. lia.
+Qed.
+
+Lemma irun_raw c tail : c <> 92 -> irun INormal (c :: tail) = option_map (cons c) (irun INormal tail).
+Proof.
+  intros H. rewrite irun_cons. cbn [istep]. destruct (c =? 92) eqn:E; [lia|]. apply option_map_app_one.
+Qed.
+
+(* one step of ident_cps: the code point cp (a BMP non-surrogate unit or a
+   combined pair), what it prints, and what that denotes *)
+Lemma ident_one_ok cfg cp tl out :
+  scalar cp = true -> cp <> 92 ->
+  (if ascii_only cfg && (126 <? cp)
+   then (if cp <=? 65535 then Some (esc_u4 cp ++ tl)
+         else if uni_esc cfg then Some (esc_ubrace cp ++ tl) else None)
+   else Some (cp :: tl)) = Some out ->
+  forallb scalar tl = true ->
+  forallb scalar out = true /\ irun INormal out = option_map (cons cp) (irun INormal tl).
+Proof.
+  intros Hs Hne H Htl. unfold scalar in Hs.
+  destruct (ascii_only cfg && (126 <? cp)) eqn:E.
+  - destruct (cp <=? 65535) eqn:E2.
+    + replace out with (esc_u4 cp ++ tl) by congruence. split.
+      * rewrite forallb_app, Htl, andb_true_r. eapply good_scalar. apply (esc_u4_good false false). lia.
+      * apply irun_esc_u4. lia.
+    + destruct (uni_esc cfg); [|discriminate]. replace out with (esc_ubrace cp ++ tl) by congruence. split.
+      * rewrite forallb_app, Htl, andb_true_r. eapply good_scalar. apply (esc_ubrace_good false false). lia.
+      * apply irun_esc_ubrace. lia.
+  - replace out with (cp :: tl) by congruence. split.
+    + cbn [forallb]. rewrite Htl. unfold scalar. lia.
+    + apply irun_raw. exact Hne.
+Qed.
+
+Lemma ident_cps_ok cfg : forall n name cps,
+  (length name <= n)%nat -> all_u16 name -> wf_utf16 name = true -> ~ In 92 name ->
+  ident_cps cfg name = Some cps ->
+  forallb scalar cps = true /\
+  exists v, irun INormal cps = Some v /\ flat_map utf16_units v = name.
+Proof.
+  induction n as [|n IH]; intros name cps Hlen Hu Hwf Hbs H.
+  { destruct name; [|cbn in Hlen; lia]. inversion H; subst. split; [reflexivity|exists []; auto]. }
+  destruct name as [|c rest]; [inversion H; subst; split; [reflexivity|exists []; auto]|].
+  cbn [length] in Hlen. inversion Hu as [|? ? Hc Hu']; subst.
+  cbn [ident_cps] in H. cbn [wf_utf16] in Hwf.
+  destruct rest as [|c2 rest'].
+  - (* single last unit *)
+    destruct (is_high c) eqn:Hh; [discriminate|]. rewrite andb_true_r in Hwf.
+    assert (Hsc : scalar c = true).
+    { unfold scalar. unfold is_high in Hh. unfold is_low in Hwf. lia. }
+    destruct (ident_one_ok cfg c [] cps Hsc) as [G1 G2]; [intros E; apply Hbs; left; lia|exact H|reflexivity|].
+    split; [exact G1|]. exists [c]. split; [rewrite G2; reflexivity|].
+    cbn [flat_map]. rewrite units_small by lia. reflexivity.
+  - inversion Hu' as [|? ? Hc2 Hu'']; subst.
+    destruct (is_high c) eqn:Hh.
+    + destruct (is_low c2) eqn:Hl; [|discriminate]. cbn [andb] in H, Hwf.
+      destruct (ident_cps cfg rest') as [tl|] eqn:Et; [|discriminate].
+      destruct (IH rest' tl) as [T1 [v [T2 T3]]]; [cbn [length] in Hlen; lia|exact Hu''|exact Hwf| |exact Et|].
+      { intros Hin. apply Hbs. right; right; exact Hin. }
+      pose proof (combine_range c c2 Hh Hl) as Hr.
+      destruct (ident_one_ok cfg (combine_add c c2) tl cps) as [G1 G2]; [unfold scalar; lia|lia|exact H|exact T1|].
+      split; [exact G1|]. exists (combine_add c c2 :: v). split; [rewrite G2, T2; reflexivity|].
+      cbn [flat_map]. rewrite (units_pair c c2 Hh Hl), T3. reflexivity.
+    + cbn [andb] in H. apply andb_true_iff in Hwf as [Hnl Hwf].
+      destruct (ident_cps cfg (c2 :: rest')) as [tl|] eqn:Et; [|discriminate].
+      destruct (IH (c2 :: rest') tl) as [T1 [v [T2 T3]]]; [lia|exact Hu'|exact Hwf| |exact Et|].
+      { intros Hin. apply Hbs. right; exact Hin. }
+      assert (Hsc : scalar c = true).
+      { unfold scalar. unfold is_high in Hh. unfold is_low in Hnl. lia. }
+      destruct (ident_one_ok cfg c tl cps Hsc) as [G1 G2]; [intros E; apply Hbs; left; lia|exact H|exact T1|].
+      split; [exact G1|]. exists (c :: v). split; [rewrite G2, T2; reflexivity|].
+      cbn [flat_map]. rewrite units_small by lia. rewrite T3. reflexivity.
+Qed.
+
+Lemma ident_roundtrip_all cfg name out :
+  all_u16 name -> wf_utf16 name = true -> ~ In 92 name ->
+  print_identifier_utf16 cfg name = Some out -> ident_value out = Some name.
+Proof.
+  intros Hu Hwf Hbs H. unfold print_identifier_utf16 in H.
+  destruct (ident_cps cfg name) as [cps|] eqn:E; [|discriminate]. inversion H; subst.
+  destruct (ident_cps_ok cfg (length name) name cps (le_n _) Hu Hwf Hbs E) as [G1 [v [G2 G3]]].
+  unfold ident_value. rewrite utf8_roundtrip by exact G1. rewrite G2. cbn [option_map]. rewrite G3. reflexivity.
+Qed.
+
+(* Go's `for range` decoder (StringToUTF16) does not invert UTF16ToString on
+   lone surrogates: WTF-8 bytes ED A0 80 become three U+FFFD *)
+Lemma string_to_utf16_not_inverse :
+  exists u, all_u16 u /\ StringToUTF16 (UTF16ToString u) <> u.
+Proof.
+  exists [55296]. split; [repeat constructor; lia|]. vm_compute. discriminate.
+Qed.
